@@ -21,6 +21,7 @@ from mc import fp
 from pypika_tortoise import AliasedQuery, Case, Field, Query, Table
 from pypika_tortoise import functions as FN
 from pypika_tortoise import analytics as AN
+from pypika_tortoise import terms as T
 from pypika_tortoise.dialects import MySQLQuery, PostgreSQLQuery
 from pypika_tortoise.exceptions import (CaseException, JoinException, QueryException, RollupException,
                                         SetOperationException)
@@ -266,12 +267,20 @@ def base_class(b):
 # ---- set operations -------------------------------------------------------------------------------------------
 
 
+_SEL_TEXT = {"on": False}
+
+
 def sel(n, tab="t", star=False):
     t = Table(tab)
     q = Query.from_(t)
     if star:
         return q.select("*")
-    return q.select(*[t.field("c%d" % i) for i in range(n)])
+    q = q.select(*[t.field("c%d" % i) for i in range(n)])
+    if _SEL_TEXT["on"]:
+        # text with braces, percent signs and backslashes in the statement (whatever the library does with the rendered text of an
+        # operand - e.g. quoting it in an error message - must not depend on what it contains)
+        q = q.where((t.field("w") == "Dear {name} {0} {} %s %(x)s \\") & (t.field("j") == T.JSON({"k": "{v}"})))
+    return q
 
 
 def setop_cases():
@@ -284,9 +293,20 @@ def setop_cases():
     for a in (1, 2):
         for b in (1, 2):
             yield {"k": "setop_nested", "lens": [a, b]}
+    for op in ("union", "intersect"):
+        for lens in ([1, 2], [2, 2], [2, 1, 2], [2, 2, 1], [1, 1, 1]):
+            yield {"k": "setop", "op": op, "lens": lens, "text": True}
 
 
 def run_setop(case, res):
+    _SEL_TEXT["on"] = bool(case.get("text"))
+    try:
+        _run_setop(case, res)
+    finally:
+        _SEL_TEXT["on"] = False
+
+
+def _run_setop(case, res):
     res.nontrivial = 1
     lens = case["lens"]
     if case["k"] == "setop_nested":
@@ -429,7 +449,7 @@ def misc_cases():
         for n in (0, 1):
             for els in (False, True):
                 yield {"k": "case", "pos": pos, "whens": n, "else": els}
-    for stmt in ("select", "insert", "update", "delete", "update_join", "update_from"):
+    for stmt in ("select", "insert", "update", "delete", "update_join", "update_from", "update_via_table", "insert_via_table"):
         for what in ("str", "own_field", "foreign_field", "literal", "arith_own", "arith_foreign", "function", "star", "aggregate",
                      "joined_field", "from_field", "arith_mixed", "arith_mixed_swapped", "tuple_mixed",
                      "same_name_other_schema", "same_name_nested_schema", "alias_named_like_target", "same_name_other_schema_arith",
@@ -437,7 +457,9 @@ def misc_cases():
             yield {"k": "returning", "stmt": stmt, "what": what}
     for name in ("into", "update", "delete", "delete_after_select", "update_after_select", "create_table", "primary_key", "drop_table",
                  "for_", "for_portion", "for_then_portion", "mysql_rollup", "rows_range", "columns_after_as_select",
-                 "as_select_after_columns", "select_str_no_from", "mysql_rollup_empty", "insert_no_table", "columns_no_table"):
+                 "as_select_after_columns", "select_str_no_from", "mysql_rollup_empty", "insert_no_table", "columns_no_table",
+                 "into_same_object", "into_same_object_after_insert", "into_equal_table", "into_via_table_api", "update_same_object",
+                 "update_same_object_after_set", "update_via_table_api", "create_table_same_name", "drop_table_same_name", "for_same_object"):
         yield {"k": "oneshot", "name": name}
     # rollup(): every sequence of up to three calls over {plain, mysql without terms, mysql with a term} on a query with /
     # without GROUP BY; reference model: WITH ROLLUP closes the clause (any later rollup() is rejected), a mysql rollup
@@ -481,7 +503,10 @@ def run_returning(case, res):
     q = {"select": lambda: Q.from_(t).select(t.a), "insert": lambda: Q.into(t).insert(1, 2),
          "update": lambda: Q.update(t).set(t.a, 1), "delete": lambda: Q.from_(t).delete(),
          "update_join": lambda: Q.update(t).join(u).on(t.id == u.id).set(t.a, u.x),
-         "update_from": lambda: Q.update(t).from_(u).set(t.a, u.x).where(t.id == u.id)}[stmt]()
+         "update_from": lambda: Q.update(t).from_(u).set(t.a, u.x).where(t.id == u.id),
+         # the statement started by the table's own method (the table was handed out by the PostgreSQL class)
+         "update_via_table": lambda: Q.Table("t").update().set(t.a, 1),
+         "insert_via_table": lambda: Q.Table("t").insert(1, 2)}[stmt]()
     what = case["what"]
     dml = stmt != "select"
     if what in ("joined_field",) and stmt != "update_join":
@@ -582,6 +607,17 @@ def run_oneshot(case, res):
         "rows_range": lambda: AN.Sum(t.a).over(t.b).rows(AN.Preceding(1)).range(AN.Preceding(1)),
         "columns_after_as_select": lambda: Query.create_table("a").as_select(Query.from_(t).select(t.a)).columns("x"),
         "as_select_after_columns": lambda: Query.create_table("a").columns("x").as_select(Query.from_(t).select(t.a)),
+        # the repeated call with the very same argument object / an equal one / after other calls / through the table's own method
+        "into_same_object": lambda: Query.into(t).into(t),
+        "into_same_object_after_insert": lambda: Query.into(t).insert(1).into(t),
+        "into_equal_table": lambda: Query.into(t).into(Table("t")),
+        "into_via_table_api": lambda: t.insert(1).into(t),
+        "update_same_object": lambda: Query.update(t).update(t),
+        "update_same_object_after_set": lambda: Query.update(t).set(t.a, 1).update(t),
+        "update_via_table_api": lambda: t.update().update(t),
+        "create_table_same_name": lambda: Query.create_table("a").create_table("a"),
+        "drop_table_same_name": lambda: Query.drop_table("a").drop_table("a"),
+        "for_same_object": lambda: (lambda c: Table("t").for_(c).for_(c))(SystemTimeValue().as_of("1")),
         "insert_no_table": lambda: Query.from_(t).insert(1),
         "columns_no_table": lambda: Query.from_(t).columns("a"),
     }
